@@ -522,6 +522,9 @@ fn judge(ctx: &Ctx, sub: &str, t: &T, style: u8, wrap: &str, l: &mut Local) {
 }
 
 pub fn run(ctx: &Ctx) {
+    // the watchdog's clock also covers the harness's own oracle work (reference models, DOM enumeration);
+    // the limit is generous so that machine load cannot turn a slow case into a verdict
+    ctx.hang_limit_s.store(300, std::sync::atomic::Ordering::Relaxed);
     // depth 1 over all leaves, depth 2 over the first 6 (quick) / 9 (thorough) leaves
     let d1 = trees(1, LEAVES.len());
     let d2 = trees(2, ctx.pick(6, 8));
